@@ -35,7 +35,9 @@ Definition table : list (string * (val -> val)) := [
   ("const_string", Model.ConstIO.run_const_string);
   ("const_int", Model.ConstIO.run_const_int);
   ("float80", Model.ConstIO.run_float80);
-  ("decompile", Model.LingoIO.run_decompile)
+  ("decompile", Model.LingoIO.run_decompile);
+  ("decompile_history", Model.LingoIO.run_decompile_history);
+  ("decompile_pair", Model.LingoIO.run_decompile_pair)
 ].
 
 Fixpoint lookup (n : string) (t : list (string * (val -> val))) : option (val -> val) :=
